@@ -199,12 +199,13 @@ class Trace:
                                      reserved=list(rec['machines']))
         # ---- C07: buffer conservation
         bs = probe.buffer_state(sim.buffer)
-        hu = bs['hot_total'] - bs['hot_free']
-        cu = bs['cold_total'] - bs['cold_free']
-        if bs['hot_free'] < -EPS or bs['hot_free'] > bs['hot_total'] + EPS:
-            self.violate('C07', 'hot_bounds', free=bs['hot_free'], total=bs['hot_total'])
-        if bs['cold_free'] < -EPS or bs['cold_free'] > bs['cold_total'] + EPS:
-            self.violate('C07', 'cold_bounds', free=bs['cold_free'], total=bs['cold_total'])
+        # capacities as configured (from the generated case), not as the buffer object reports
+        hu = sp['hot_capacity'] - bs['hot_free']
+        cu = sp['cold_capacity'] - bs['cold_free']
+        if bs['hot_free'] < -EPS or bs['hot_free'] > sp['hot_capacity'] + EPS:
+            self.violate('C07', 'hot_bounds', free=bs['hot_free'], total=sp['hot_capacity'])
+        if bs['cold_free'] < -EPS or bs['cold_free'] > sp['cold_capacity'] + EPS:
+            self.violate('C07', 'cold_bounds', free=bs['cold_free'], total=sp['cold_capacity'])
         sh = sum(self.H.values())
         sc = sum(self.C.values())
         if abs(hu - sh) > 1e-6:
@@ -214,7 +215,7 @@ class Trace:
             self.violate('C07', 'cold_used_vs_resident', used=cu, resident=sc,
                          per_obs=dict(self.C))
         cnt['c07_evals'] += 1
-        frac = hu / bs['hot_total'] if bs['hot_total'] else 0.0
+        frac = hu / sp['hot_capacity'] if sp['hot_capacity'] else 0.0
         if frac > getattr(self, 'max_hot_frac', 0.0):
             self.max_hot_frac = frac
         if sum(1 for v in self.H.values() if v > 0) >= 2:
